@@ -17,6 +17,7 @@ package validation
 import (
 	"crypto/tls"
 	"fmt"
+	"net/url"
 	"strings"
 
 	apimachineryvalidation "k8s.io/apimachinery/pkg/api/validation"
@@ -70,6 +71,11 @@ func ValidateServers(servers []proxyv1alpha1.UpstreamClusterServer, fldPath *fie
 		scheme := getURLScheme(servers[i].Endpoint)
 		if len(scheme) == 0 {
 			allErrs = append(allErrs, field.Invalid(fldPath.Child("servers").Index(i), s, "endpoint must supply http(s) schema"))
+		} else if u, err := url.Parse(s.Endpoint); err != nil {
+			// the endpoint is used as the host of a rest config, it must be parseable
+			allErrs = append(allErrs, field.Invalid(fldPath.Index(i).Child("endpoint"), s.Endpoint, "endpoint must be a valid URL: "+err.Error()))
+		} else if len(u.Host) == 0 {
+			allErrs = append(allErrs, field.Invalid(fldPath.Index(i).Child("endpoint"), s.Endpoint, "endpoint must supply a host"))
 		} else {
 			schemes.Insert(scheme)
 		}
@@ -103,6 +109,10 @@ func ValidateClientConfig(scheme string, clientconfig *proxyv1alpha1.ClientConfi
 	if scheme == "https" {
 		if !clientconfig.Insecure && len(clientconfig.CAData) == 0 {
 			allErrs = append(allErrs, field.Required(fldPath.Child("caData"), "clientConfig must supply caData when using secure mode"))
+		}
+		if clientconfig.Insecure && len(clientconfig.CAData) > 0 {
+			// the client transport can not be built with both of them
+			allErrs = append(allErrs, field.Forbidden(fldPath.Child("caData"), "clientConfig must not supply caData when insecure is true"))
 		}
 
 		var hasToken, hasKey, hasCert bool
@@ -314,7 +324,7 @@ func ValidateFlowControlConfiguration(schema *proxyv1alpha1.FlowControlSchemaCon
 		}
 	}
 	if schema.GlobalTokenBucket != nil {
-		if schema.GlobalTokenBucket.QPS == 0 {
+		if schema.GlobalTokenBucket.QPS <= 0 {
 			allErrs = append(allErrs, field.Invalid(fldPath.Child("globalTokenBucket").Child("qps"), schema.GlobalTokenBucket.QPS, "must bigger than 0"))
 		}
 		if schema.TokenBucket == nil {
@@ -334,7 +344,7 @@ func ValidateFlowControlConfiguration(schema *proxyv1alpha1.FlowControlSchemaCon
 
 func validateTokenBucketFlowControlSchema(tokenBucket *proxyv1alpha1.TokenBucketFlowControlSchema, fldPath *field.Path) field.ErrorList {
 	allErrs := field.ErrorList{}
-	if tokenBucket.QPS == 0 {
+	if tokenBucket.QPS <= 0 {
 		allErrs = append(allErrs, field.Invalid(fldPath.Child("qps"), tokenBucket.QPS, "must bigger than 0"))
 	}
 
